@@ -273,3 +273,19 @@ Definition pending (p : aphase) : list setk :=
   | ASending (PCheck s) | ASending (PLock s) | ASending (PInc s) | ASending (PWrite s _) => [s]
   | _ => []
   end.
+
+(* ---- thread classes for the lockset discipline on the regenerated table (Gen/Locks.v) ----
+   the application calls the API from ONE goroutine (class 0), except CloseConnToCollector, which
+   any number of goroutines may call (class 3, multi); every `go` statement of the package is a
+   single goroutine of its own class. *)
+From Coq Require Import String.
+From Verif.Model Require Import LockTab.
+Definition exp_thr (r : root) : nat :=
+  match r with
+  | RApi name => if String.eqb name "CloseConnToCollector" then 3 else 0
+  | RFunc _ => 0
+  | RGo n _ => 10 + n
+  | RTimer n _ => 100 + n
+  | RCallback n _ => 200 + n
+  end.
+Definition exp_multi (c : nat) : bool := Nat.eqb c 3.
